@@ -95,6 +95,10 @@ class Scheduler(object):
         self.nested_done = False
         self.exit_seen_in_drain = 0
         self.cleanup_yields = 0
+        # chance that a join(timeout=...) on a live worker returns because the timeout expired (0 for FIFO)
+        self.p_join_timeout = float(self.spec.get('p_join_timeout',
+                                                  0.0 if self.spec.get('policy') == 'fifo' else 0.35))
+        self.n_join_timeouts = 0
 
     # -- decisions -----------------------------------------------------------
     def _draw(self, n):
@@ -370,7 +374,15 @@ class SimProcess(RealProcess):
     def join(self, timeout=None):
         if self._sim_sched is None or KERNEL.in_child:
             return RealProcess.join(self, timeout)
-        self._sim_sched.join(self)
+        sch = self._sim_sched
+        if timeout is not None and self._sim_state != 'exited' and sch._coin(sch.p_join_timeout):
+            # the timeout expires first (a slow worker, a loaded machine): the simulated clock moves on by the timeout
+            # and join() returns with the worker still alive -- a legal outcome of join(timeout)
+            KERNEL.clock += float(timeout)
+            sch.log.append(['join_timeout', self._sim_id])
+            sch.n_join_timeouts = getattr(sch, 'n_join_timeouts', 0) + 1
+            return
+        sch.join(self)
 
     def is_alive(self):
         if self._sim_sched is None or KERNEL.in_child:
